@@ -103,19 +103,33 @@ struct Variant {
     rep: usize,
 }
 
+/// Option sets of a run: 0 default, 1 a subset in two populations (order unlike the column order),
+/// 2 --strict, 3 projection of everybody, 4 subset + projection, 5 subset + --strict.
+const N_CONFIGS: usize = 6;
+
 fn config_args(config: usize, n_samples: usize) -> Vec<String> {
+    let list = if n_samples >= 5 {
+        "s3=B,s0=A,s4=B"
+    } else if n_samples >= 3 {
+        "s2=B,s0=A"
+    } else {
+        "s1=B,s0=A"
+    };
+    let subset = || -> Vec<String> { vec!["-s".into(), list.into()] };
     match config {
         0 => vec![],
+        1 => subset(),
+        2 => vec!["--strict".into()],
+        3 => vec!["-p".into(), (n_samples / 3).max(1).to_string()],
+        4 => {
+            let mut a = subset();
+            a.extend(["-p".to_string(), "1,1".to_string()]);
+            a
+        }
         _ => {
-            // a subset in two populations, order different from column order
-            let list = if n_samples >= 5 {
-                "s3=B,s0=A,s4=B"
-            } else if n_samples >= 3 {
-                "s2=B,s0=A"
-            } else {
-                "s1=B,s0=A"
-            };
-            vec!["-s".into(), list.into()]
+            let mut a = subset();
+            a.push("--strict".into());
+            a
         }
     }
 }
@@ -172,7 +186,7 @@ fn observe_orders(d: usize) -> (usize, usize, bool) {
 
 pub fn run(tier: Tier) -> i32 {
     let mut rep = Report::new("C12", tier, "exploration");
-    rep.rule = "configuration grid, enumerated completely: call sets {5 small incl. one with 300 samples, 300 contigs, 300-byte names and positions up to 2^31-1, missing / multiallelic / two contigs / extra fields / monomorphic records / records without FORMAT or without a GT key, one of 2 600 records (~150 KiB, several 64 KiB BGZF blocks)} x container {vcf, vcf.gz, bcf, raw bcf} x BGZF layout (12: single block, one record per block, 1/7/64/4096/65280-byte blocks, empty block in front/middle/end, stored blocks - for the large call set with first blocks of 8, 16, 32 and 64 KiB compressed size -, no EOF marker) x transport {path, stdin} (small call sets also: real pipe, FIFO by path, /dev/stdin; and ten file names) x --threads 1..16 x 2 repetitions (fresh process = fresh hash seeds) x 2 sample configurations; every run's stdout and exit status must equal the canonical run (plain VCF by path, 1 thread). L1: the same containers through the real reader construction with set_threads, and the hash-order observer. Non-trivial = compressed multi-block container with >=2 threads, or stdin transport.".into();
+    rep.rule = "configuration grid, enumerated completely: call sets {5 small incl. one with 300 samples, 300 contigs, 300-byte names and positions up to 2^31-1, missing / multiallelic / two contigs / extra fields / monomorphic records / records without FORMAT or without a GT key, one of 2 600 records (~150 KiB, several 64 KiB BGZF blocks)} x container {vcf, vcf.gz, bcf, raw bcf} x BGZF layout (12: single block, one record per block, 1/7/64/4096/65280-byte blocks, empty block in front/middle/end, stored blocks - for the large call set with first blocks of 8, 16, 32 and 64 KiB compressed size -, no EOF marker) x transport {path, stdin} (small call sets also: real pipe, FIFO by path, /dev/stdin; and ten file names) x --threads 1..16 x 2 repetitions (fresh process = fresh hash seeds) x 2 sample configurations, and four further option sets (--strict, projection, subset + projection, subset + --strict) x every layout and transport x --threads 1 and 3 (thorough: every count); every run's stdout and exit status must equal the canonical run (plain VCF by path, 1 thread). L1: the same containers through the real reader construction with set_threads, and the hash-order observer. Non-trivial = compressed multi-block container with >=2 threads, or stdin transport.".into();
     let scratch = Scratch::new("c12");
     let smalls = small_call_sets();
     let big = big_call_set();
@@ -212,6 +226,13 @@ pub fn run(tier: Tier) -> i32 {
                                 variants.push(Variant { set: si, container, layout: layout.clone(), stdin, threads: t, config, rep: rep_i });
                             }
                         }
+                        // the other option sets (strict mode, projection, and both with a subset):
+                        // every layout and transport, thread counts 1 and 3 (thorough: every count)
+                        if tier.thorough() || t == 1 || t == 3 || (!container.compressed() && t == 4) {
+                            for config in 2..N_CONFIGS {
+                                variants.push(Variant { set: si, container, layout: layout.clone(), stdin, threads: t, config, rep: 0 });
+                            }
+                        }
                     }
                 }
             }
@@ -222,7 +243,7 @@ pub fn run(tier: Tier) -> i32 {
         .iter()
         .enumerate()
         .map(|(si, (_, cs))| {
-            (0..2)
+            (0..N_CONFIGS)
                 .map(|config| {
                     let v = Variant { set: si, container: Container::Vcf, layout: Layout::Single, stdin: false, threads: 1, config, rep: 0 };
                     run_variant(&v, &render(cs, Container::Vcf, &Layout::Single), cs.samples.len(), &scratch)
@@ -231,7 +252,12 @@ pub fn run(tier: Tier) -> i32 {
         })
         .collect();
     for (si, outs) in canon.iter().enumerate() {
-        for o in outs {
+        for (config, o) in outs.iter().enumerate() {
+            // a strict run fails on a call set with skipped sites; every variant must then fail alike
+            let strict = config == 2 || config == 5;
+            if strict && !o.ok() && o.stdout.is_empty() && o.diagnosed_error() {
+                continue;
+            }
             if !o.ok() {
                 eprintln!("ENGINE: canonical run for {} failed: {} {}", sets[si].0, o.status_str(), o.stderr_str());
                 return 2;
